@@ -419,3 +419,97 @@ class TermFlow:
     def _id(self):
         self.n += 1
         return self.n
+
+
+# ---- PipeFlow: TermFlow + hasher / advice instructions, cross-module exec ------------------------------------------------------
+
+STD = "/repo/stdlib/asm/"
+
+
+class PipeFlow(TermFlow):
+    """adds adv_pipe / mem_stream / hperm / adv_loadw / adv_push / assert_eqw / advice injectors; `exec.alias::name` is resolved
+    through the module's `use` lines; procedures named in `loops` are replaced by the loop contracts the rule has decided:
+      pipe_double_words_to_memory  [S(12), wp, ep, ..] -> [S'(12), ep, ..]      event ("pipe_loop", S, wp, ep, S')
+      hash_memory_even             [S(12), sa, ea, ..] -> [S'(12), ea, ea, ..]  event ("hash_loop", S, sa, ea, S')"""
+    def __init__(self, module, contracts=None, loops=()):
+        TermFlow.__init__(self, module, contracts)
+        self.loops = set(loops)
+        self.mods = {}
+
+    def module_of(self, alias):
+        path = self.m.imports.get(alias)
+        if path is None or not path.startswith("std::"):
+            raise Undecided("unknown module alias %s" % alias)
+        f = STD + path[5:].replace("::", "/") + ".masm"
+        if f not in self.mods:
+            self.mods[f] = Module(f)
+        return self.mods[f]
+
+    def step(self, ins, ln, st, ev, gd, depth):
+        parts = ins.split(".")
+        op, imm = parts[0], parts[1:]
+        while len(st) < 40:
+            st.append(("deep", len(st)))
+        if op == "exec":
+            target = ".".join(imm)
+            name = target.split("::")[-1]
+            if name in self.loops:
+                S_in = tuple(st[:12])
+                a, b = st[12], st[13]
+                out = [("f", self._id(), name, k) for k in range(12)]
+                ident = out[0][1]
+                out = [("f", ident, name, k) for k in range(12)]
+                if name == "pipe_double_words_to_memory":
+                    ev.append(("pipe_loop", ln, S_in, a, b, tuple(out)))
+                    st[:14] = out + [b]
+                else:
+                    ev.append(("hash_loop", ln, S_in, a, b, tuple(out)))
+                    st[:14] = out + [b, b]
+                return [(st, ev, gd)]
+            if "::" in target:
+                mod = self.module_of(target.split("::")[0])
+                if name not in mod.procs or depth > 6:
+                    raise Undecided("%s:%d: exec %s" % (self.m.path, ln, target))
+                saved = self.m
+                self.m = mod
+                try:
+                    return self.run(mod.procs[name].body, st, ev, gd, depth + 1)
+                finally:
+                    self.m = saved
+            return TermFlow.step(self, ins, ln, st, ev, gd, depth)
+        if op == "hperm":
+            S_in = tuple(st[:12])
+            ident = self._id()
+            out = [("f", ident, "hperm", k) for k in range(12)]
+            ev.append(("hperm", ln, S_in, tuple(out)))
+            st[:12] = out
+        elif op in ("adv_pipe", "mem_stream"):
+            a = st[12]
+            ident = self._id()
+            w = [("f", ident, op, k) for k in range(8)]
+            ev.append((op, ln, a, tuple(w)))
+            st[:8] = w
+            st[12] = T("add", a, 2)
+        elif op == "adv_loadw":
+            ident = self._id()
+            w = [("f", ident, "adv_loadw", k) for k in range(4)]
+            ev.append(("adv_loadw", ln, tuple(w)))
+            st[:4] = w
+        elif op == "adv_push":
+            for _ in range(int(imm[0])):
+                v = ("f", self._id(), "adv_push", 0)
+                ev.append(("adv_push", ln, v))
+                st.insert(0, v)
+        elif op == "assert_eqw":
+            ev.append(("assert_eqw", ln, tuple(st[:4]), tuple(st[4:8])))
+            del st[:8]
+        elif op == "assert":
+            ev.append(("assert", ln, st.pop(0)))
+        elif op == "adv":
+            ev.append(("adv." + ".".join(imm), ln, tuple(st[:4]), st[4], st[5]))
+        elif op == "neq" and not imm:
+            b, a = st.pop(0), st.pop(0)
+            st.insert(0, T("neq", a, b))
+        else:
+            return TermFlow.step(self, ins, ln, st, ev, gd, depth)
+        return [(st, ev, gd)]
